@@ -28,7 +28,7 @@ PARTIAL = ["C13_fixed_point: proved on the JSON level (pcf_json (pcf_json j) = p
            "integers, input not marked as already parsed); every generated schema is checked to be in the class"]
 
 IMPORTS = ("From Coq Require Import String.\n"
-           "From FA Require Import model.Base model.Json model.Parse model.Canon.\n")
+           "From FA Require Import model.Base model.Json model.Parse model.Canon model.Piecewise.\n")
 
 
 def impl_canon(schema):
@@ -172,6 +172,7 @@ def run(ctx):
             ctx.violation("pred:fixed-point", case(s, canonical=text), impl=r3, model=r1,
                           signature="C13:to_parsing_canonical_form:fixed-point:" +
                                     ("null-namespace-type-nested-in-namespaced-record" if null_ns_nested else "other"))
+    run_piecewise(ctx)
     ctx.notes["generator"] = stats
     ctx.notes["cosmetic_edits"] = edit_hist
     ctx.notes["rejected_schemas"] = both_raise
@@ -180,6 +181,55 @@ def run(ctx):
         raise RuntimeError("generator broken: %d of %d schemas rejected" % (both_raise, len(cases)))
     for s, s2, edits in cases[:3]:
         ctx.sample(dict(schema=s, rewrite=s2, edits=edits, canonical=impl_canon(s)))
+
+
+def run_piecewise(ctx):
+    """corr:canon-piecewise: chains / diamonds of separately parsed documents sharing one named_schemas dict
+    (dependencies first); the canonical form of the last one must equal that of the same types written inline,
+    be parseable on its own and be a fixed point"""
+    from fastavro.schema import parse_schema, to_parsing_canonical_form
+    from . import c19
+    rng = ctx.rng
+    graphs = [c19.gen_graph(rng) for _ in range(120 if ctx.quick() else 3000)]
+    graphs.append(dict(top="A", n=4, deps={"A": ["B"], "B": ["C"], "C": ["D"], "D": []}, files={
+        "A": {"type": "record", "name": "A", "fields": [{"name": "b", "type": "B"}]},
+        "B": {"type": "record", "name": "B", "fields": [{"name": "c", "type": {"type": "array", "items": "C"}}]},
+        "C": {"type": "record", "name": "C", "fields": [{"name": "d", "type": ["null", "D"]}]},
+        "D": {"type": "fixed", "name": "D", "size": 2}}))
+    cases = []
+    for gi, g in enumerate(graphs):
+        orders = c19.topo_orders(g["deps"], g["top"], rng=__import__("random").Random(gi))
+        order = rng.choice(orders)
+        cases.append((g, order, [g["files"][n] for n in order]))
+    exprs = ["show_piecewise_canon [%s]" % "; ".join(sg.to_coq(x) for x in pieces) for g, order, pieces in cases]
+    model = [unhex(x) for x in core.coq_eval(exprs, IMPORTS, ctx.workdir, tag="pw", shard=60 if ctx.quick() else 150)]
+    depth_hist = {}
+    for (g, order, pieces), m in zip(cases, model):
+        key = json.dumps(pieces, sort_keys=True)
+        ctx.count("corr:canon-piecewise", key, nontrivial=len(pieces) >= 2)
+        depth_hist[len(pieces)] = depth_hist.get(len(pieces), 0) + 1
+        named = {}
+        try:
+            parsed = [parse_schema(copy.deepcopy(x), named) for x in pieces]
+            r = "ok:" + to_parsing_canonical_form(parsed[-1])
+        except Exception as e:
+            r = "raised:" + type(e).__name__
+        inl = impl_canon(c19.inline_first_use(g["files"], g["top"]))
+        cs = dict(pieces=pieces, pieces_json=json.dumps(pieces), order=order, top=g["top"])
+        if r != inl:
+            ctx.violation("pred:canon-piecewise", cs, impl=r, model=inl,
+                          signature="C13:to_parsing_canonical_form:piecewise-parsed:differs-from-inline")
+        elif r.startswith("ok:"):
+            back = impl_canon(json.loads(r[3:]))
+            if back != r:
+                ctx.violation("pred:canon-piecewise", cs, impl=back, model=r,
+                              signature="C13:to_parsing_canonical_form:piecewise-parsed:" +
+                                        ("not-self-contained" if not back.startswith("ok:") else "not-a-fixed-point"))
+        if r != m:
+            ctx.violation("corr:canon-piecewise", cs, impl=r, model=m,
+                          signature="C13:to_parsing_canonical_form:piecewise-parsed:differs-from-model",
+                          found_input=(r != inl))
+    ctx.notes["piecewise_documents"] = depth_hist
 
 
 def _null_namespace_nested(s):
@@ -194,6 +244,21 @@ def _null_namespace_nested(s):
 
 def replay(ctx, rep):
     c = rep["case"]
+    if "pieces_json" in c:
+        from fastavro.schema import parse_schema, to_parsing_canonical_form
+        pieces = json.loads(c["pieces_json"])
+        named = {}
+        try:
+            parsed = [parse_schema(copy.deepcopy(x), named) for x in pieces]
+            r = "ok:" + to_parsing_canonical_form(parsed[-1])
+        except Exception as e:
+            r = "raised:" + type(e).__name__
+        m = unhex(core.coq_eval(["show_piecewise_canon [%s]" % "; ".join(sg.to_coq(x) for x in pieces)], IMPORTS, ctx.workdir, tag="rp")[0])
+        print("implementation:", r)
+        print("model:", m)
+        back = impl_canon(json.loads(r[3:])) if r.startswith("ok:") else None
+        print("canonical form read back:", back)
+        return r == m and back == r
     s = json.loads(c["schema_json"])
     r = impl_canon(s)
     m = [unhex(x) for x in core.coq_eval(["show_canon " + sg.to_coq(s), "show_pcf " + sg.to_coq(s)], IMPORTS, ctx.workdir, tag="rp")]
